@@ -183,6 +183,18 @@ class Violation(Exception):
         }
 
 
+def bounded(iterable, expected, what="iteration"):
+    """list(iterable), but a traversal that yields far more than the container can
+    hold (a cycle, a generator that never ends) is a violation, not a hang."""
+    cap = 4 * expected + 64
+    out = []
+    for item in iterable:
+        out.append(item)
+        if len(out) > cap:
+            raise Violation("iteration_unbounded", what, "more than %d items" % cap, "%d items" % expected)
+    return out
+
+
 def r(obj):
     """Deterministic short repr for violation records and log lines."""
     s = repr(obj)
